@@ -150,7 +150,7 @@ def cmd_replay(prop, path):
     doc, v, k = replay_file(path)
     want = doc["violation"]["kind"]
     if v is not None and v.kind == want:
-        print("reproduced at op %d: %s" % (k, v))
+        print("reproduced at op %d: %s: %s" % (k, v.kind, v.message[:300]))
         print("VIOLATION property=%s replay=%s" % (doc["property"], path))
         return 1
     print("REPLAY-DIVERGED expected %s at op %s, got %s" % (
@@ -206,7 +206,7 @@ def cmd_check(prop, tier, seed, runs=None, wall=None, workers=None, first_index=
     n_violations = 0
     for e, wit, v in regress:
         n_violations += 1
-        print("regression of fixed finding %s: %s" % (e["id"], v))
+        print("regression of fixed finding %s: %s: %s" % (e["id"], v.kind, v.message[:200]))
         print("VIOLATION property=%s replay=%s" % (prop, wit))
         exit_code = 1
     agg = core.run_batch(spec["engine"], prop, seed, n_runs, tier, wall_cap, workers=workers,
